@@ -1430,7 +1430,14 @@ class Exec:
             if c is not None and self.is_current(c):
                 # recursive call of the function under verification: use its own contract
                 return self.apply_contract(c, full_args, kwargs, p, node, fr)
-            return self.opaque_call(f.qual, p, node)
+            # a function of the package without a contract (typically a helper split off by a refactoring): its real body is executed in place
+            # when it is straight-line / branching code; anything bigger must get a contract - the caller is undecided, not "violating"
+            try: fn2, m2 = self.prog.func(f.qual)
+            except KeyError: return self.opaque_call(f.qual, p, node)
+            if _simple_body(fn2) and self.depth < 8 and f.qual != fr.qual:
+                self.assume_note(f'{f.qual.split(":")[1]} has no contract: its body is executed in place (inlined)')
+                return self.inline(fn2, m2, f.qual, full_args, kwargs, p, node, None)
+            raise Unsupported(f'call of {f.qual}: no contract and not simple enough to execute in place')
         # closure
         if f.node is not None:
             cq = f'{fr.qual}.<locals>.{f.node.name}'
@@ -1583,6 +1590,16 @@ class Closure:
 
 ROLE_ALIASES = {}       # contract's name of a loop variable -> its spelling in the source under verification (identity unless renamed)
 ROLE_REV = {}
+
+
+def _simple_body(fn):
+    """straight-line / branching code without loops, try, with, nested defs, yield; at most 40 statements"""
+    n = 0
+    for x in ast.walk(fn):
+        if x is fn: continue
+        if isinstance(x, (ast.For, ast.While, ast.Try, ast.With, ast.FunctionDef, ast.Lambda, ast.Yield, ast.YieldFrom, ast.ClassDef, ast.Global, ast.Nonlocal)): return False
+        if isinstance(x, ast.stmt): n += 1
+    return n <= 40
 
 
 def own_for_loops(fn):
